@@ -6,7 +6,7 @@
 (* hash_to_field.  What is judged is that the library feeds H exactly the  *)
 (* strings the RFC prescribes and assembles its outputs as prescribed.     *)
 (***************************************************************************)
-EXTENDS JMap, Bitwise
+EXTENDS JMap, Bitwise, Sha256
 
 HasInput(H, inp) == \E i \in 1..Len(H) : H[i][1] = inp
 HOut(H, inp) == H[CHOOSE i \in 1..Len(H) : H[i][1] = inp][2]
@@ -55,6 +55,30 @@ XofOut(H, msg, dst, len) ==
 
 ExpandOut(x, H, msg, dst, len) == IF IsXmd(x) THEN XmdOut(x, H, msg, dst, len) ELSE XofOut(H, msg, dst, len)
 
+(***************************************************************************)
+(* For the SHA-256 / SHA-224 instances the hash is INTERPRETED (module     *)
+(* Sha256, FIPS 180-4 in TLA+): every recorded pair of the graph must be   *)
+(* the digest of its input (inputs up to HashCheckMax bytes are recomputed;*)
+(* 15 ms per 64-byte block), which makes the accepted output the closed    *)
+(* function XmdClosed(msg, dst, len) that MC_Math anchors against the      *)
+(* published expand_message_xmd vectors.                                   *)
+(***************************************************************************)
+HashCheckMax == 2048
+Hs(x, inp) == IF x = "xmd-sha256" THEN SHA256(inp) ELSE SHA224(inp)
+Interpreted(x) == x \in {"xmd-sha256", "xmd-sha224"}
+GraphIsHash(x, H) ==
+  Interpreted(x) => \A i \in 1..Len(H) : Len(H[i][1]) <= HashCheckMax => H[i][2] = Hs(x, H[i][1])
+
+RECURSIVE XmdBlocksC(_,_,_,_,_,_)
+XmdBlocksC(x, b0, dstp, prev, i, ell) ==
+  IF i > ell THEN <<>>
+  ELSE LET bi == Hs(x, (IF i = 1 THEN b0 ELSE StrXor(b0, prev)) \o I2OSP1(i) \o dstp)
+       IN bi \o XmdBlocksC(x, b0, dstp, bi, i + 1, ell)
+XmdClosed(x, msg, dst, len) ==
+  LET dstp == dst \o I2OSP1(Len(dst))
+      mp   == ZeroBytes(BlockBytes(x)) \o msg \o I2OSP2(len) \o I2OSP1(0) \o dstp
+  IN IF len = 0 THEN <<>> ELSE SubSeq(XmdBlocksC(x, Hs(x, mp), dstp, <<>>, 1, Ell(x, len)), 1, len)
+
 (* the domain of the property: |dst| <= 255, len <= 65535; XMD aborts iff ell > 255 *)
 InDomain(e, len) == Len(e.dst) <= 255 /\ len <= 65535
 MustAbort(x, len) == IsXmd(x) /\ Ell(x, len) > 255
@@ -69,6 +93,7 @@ JudgeExpand(e) ==
     ELSE LET r == TLCEval(ExpandOut(e.x, e.out.H, e.msg, e.dst, e.len)) IN
          /\ ~e.out.aborted
          /\ HFunctional(e.out.H)
+         /\ GraphIsHash(e.x, e.out.H)
          /\ (IsXmd(e.x) => \A i \in 1..Len(e.out.H) : Len(e.out.H[i][2]) = OutBytes(e.x))
          /\ r[1] /\ e.out.bytes = r[2] /\ Len(e.out.bytes) = e.len
 
@@ -82,11 +107,15 @@ ElemsOf(f, bytes, count) ==
   [i \in 1..count |-> ElemOfBlock(f, SubSeq(bytes, (i - 1) * FieldL(f) + 1, i * FieldL(f)))]
 
 JudgeH2f(e) ==
+  \* element counts whose byte length does not even fit a machine word are far beyond 255 blocks
+  IF "countbig" \in DOMAIN e
+  THEN (Len(e.dst) <= 255 /\ IsXmd(e.x) /\ Lt(FromInt(255 * OutBytes(e.x)), Mul(e.countbig, FromInt(FieldL(e.f))))) => e.out.aborted
+  ELSE
   LET len == e.count * FieldL(e.f) IN
   InDomain(e, len) =>
     IF MustAbort(e.x, len) THEN e.out.aborted
     ELSE LET r == TLCEval(ExpandOut(e.x, e.out.H, e.msg, e.dst, len)) IN
-         /\ ~e.out.aborted /\ HFunctional(e.out.H) /\ r[1]
+         /\ ~e.out.aborted /\ HFunctional(e.out.H) /\ GraphIsHash(e.x, e.out.H) /\ r[1]
          /\ Len(e.out.elems) = e.count
          /\ \A i \in 1..e.count : e.out.elems[i] = ElemsOf(e.f, r[2], e.count)[i]
 
@@ -100,8 +129,15 @@ JudgeH2c(e) ==
       r == TLCEval(ExpandOut(e.x, e.out.H, e.msg, e.dst, count * FieldL(f)))
   IN
   InDomain(e, count * FieldL(f)) =>
-    /\ ~e.out.aborted /\ HFunctional(e.out.H) /\ r[1]
+    /\ ~e.out.aborted /\ HFunctional(e.out.H) /\ GraphIsHash(e.x, e.out.H) /\ r[1]
     /\ LET u == ElemsOf(f, r[2], count)
            S == TLCEval(IF e.mode = "ro" THEN Map2ToCurve(g, u[1], u[2]) ELSE MapToCurve(g, u[1]))
        IN GRep(g, e.out.r, S) /\ GMul(g, S, R) = <<>>
+
+(* closed forms for the interpreted instances (anchored in MC_Math) *)
+H2fClosed(x, f, msg, dst, count) == ElemsOf(f, XmdClosed(x, msg, dst, count * FieldL(f)), count)
+H2cClosed(x, g, mode, msg, dst) ==
+  LET f == IF g = "G1" THEN "Fq" ELSE "Fq2"
+      u == H2fClosed(x, f, msg, dst, IF mode = "ro" THEN 2 ELSE 1)
+  IN IF mode = "ro" THEN Map2ToCurve(g, u[1], u[2]) ELSE MapToCurve(g, u[1])
 =============================================================================
